@@ -563,6 +563,11 @@ pub fn part_fuzz(name: &str, target: &'static str, runs: u64, max_len: u32) -> P
                     let _ = std::fs::copy(e.path(), format!("{}/{}", corpus, e.file_name().to_string_lossy()));
                 }
             }
+            // and the minimised corpus of earlier long campaigns (one archive per target)
+            let archive = format!("{}/seeds/{}.tar.gz", FUZZ_DIR, target);
+            if std::path::Path::new(&archive).exists() {
+                let _ = std::process::Command::new("tar").args(["xzf", &archive, "-C", &corpus]).output();
+            }
             if target == "c09_chunk_recv" {
                 let _ = std::process::Command::new(FUZZ_BIN).arg("-runs=1").env("VERIF_FUZZ_MKCORPUS", &corpus).output();
             }
